@@ -226,6 +226,13 @@ def main():
                 drift += 1
             else:
                 corr_breaks.append((i, c))
+                try:
+                    dfail = props.divergence_oracle(pid, c, io, mo)
+                except Exception as e:
+                    dfail = None
+                    notes.append(f"divergence oracle raised {type(e).__name__}: {e} on case {i}")
+                if dfail:
+                    oracle_fail.append((i, c, dfail))
     # impl-vs-impl group oracles
     for grp_fail in props.group_oracles(pid, cases):
         oracle_fail.append(grp_fail)
